@@ -262,3 +262,44 @@ pub fn ls_stats_paths(a: &Args) {
     println!("{}", json!({"events": out.finish()}));
     std::process::exit(0);
 }
+
+/// `hv ls-userdict`: several open documents that all hold one unknown word; the word is added to the user dictionary
+/// from one of them (UserDict.tla, Trace_UserDict.tla).
+pub fn ls_userdict(a: &Args) {
+    let mut out = Out::create(a.req("out"));
+    let mut rng = Rng::new(a.num("seed", 1));
+    let base = std::env::temp_dir().join(format!("hv_lsud_{}", std::process::id()));
+    let names = ["a", "b", "c"];
+    with_runtime(|| {
+        for n in 0..a.num("sessions", 10) {
+            let dir = base.join(format!("s{n}"));
+            std::fs::create_dir_all(&dir).unwrap();
+            let mut ls = Ls::new(&dir);
+            ls.initialize();
+            out.emit(&json!({"ev": "Reset"}));
+            let uri = |k: usize| format!("untitled:ud-{}", names[k]);
+            let text = |k: usize, v: usize| format!("Document {} mentions zorbliq in version {}. It is fine otherwise.", names[k], ["one", "two", "three", "four", "five", "six", "seven", "eight", "nine"][v % 9]);
+            let mut open = [false; 3];
+            let mut ver = [0usize; 3];
+            for step in 0..rng.range(4, 9) {
+                let k = rng.below(3);
+                let op = if !open.iter().any(|o| *o) || (!open[k] && rng.chance(2, 3)) { "open" } else if !open[k] { continue } else { ["change", "change", "add", "add", "close"][rng.below(5)] };
+                match op {
+                    "open" => { ver[k] = step; let h = ls.did_open(&uri(k), "plaintext", &text(k, ver[k])); ls.run_to_completion(h, Duration::from_secs(30)); open[k] = true; out.emit(&json!({"ev": "Open", "d": names[k]})); }
+                    "change" => { ver[k] += 1; let h = ls.did_change(&uri(k), 10 + step as i64, &text(k, ver[k])); ls.run_to_completion(h, Duration::from_secs(30)); out.emit(&json!({"ev": "Change", "d": names[k]})); }
+                    "close" => { let h = ls.did_close(&uri(k)); ls.run_to_completion(h, Duration::from_secs(30)); open[k] = false; out.emit(&json!({"ev": "Close", "d": names[k]})); }
+                    _ => { let h = ls.exec("HarperAddToUserDict", json!(["zorbliq", uri(k)])); ls.run_to_completion(h, Duration::from_secs(30)); out.emit(&json!({"ev": "Add", "d": names[k]})); }
+                }
+                let flagged: Vec<&str> = (0..3).filter(|j| open[*j]).filter(|j| {
+                    let d = ls.last_publish(&uri(*j)).cloned().unwrap_or(json!([]));
+                    crate::ls::flagged_words(&d, &text(*j, ver[*j])).iter().any(|w| w == "zorbliq")
+                }).map(|j| names[j]).collect();
+                out.emit(&json!({"ev": "Rest", "flagged": flagged}));
+            }
+            let _ = std::fs::remove_dir_all(&dir);
+        }
+    });
+    let _ = std::fs::remove_dir_all(&base);
+    println!("{}", json!({"events": out.finish()}));
+    std::process::exit(0);
+}
